@@ -30,7 +30,10 @@ Singles(l) ==
      {[kind |-> "fat_zero_pad", grp |-> "alloc", at |-> 0, val |-> 0]}
   \cup {[kind |-> "fatsec_unmarked", grp |-> "alloc", at |-> k, val |-> v] : k \in 1..Len(l.fatsecs), v \in {ENDC, FREE}}
   \cup (IF Len(l.minifat) > 0 /\ Len(l.minifat) < Len(l.mfsecs) * FatPer
-        THEN {[kind |-> "minifat_long", grp |-> "alloc", at |-> 0, val |-> 0]} ELSE {})
+        \* what the excess entries hold is the writer's business: end / free markers, ordinary numbers (an entry that
+        \* "points" at a mini sector another entry points at as well), or zeros up to the end of the sector
+        THEN {[kind |-> "minifat_long", grp |-> "alloc", at |-> 0, val |-> v] : v \in {ENDC, FREE, 0, 1}}
+             \cup {[kind |-> "minifat_zero_pad", grp |-> "alloc", at |-> 0, val |-> 0]} ELSE {})
   \cup {[kind |-> "red_red", grp |-> "dir", at |-> e, val |-> 0] : e \in SibEdges(l)}
   \cup {[kind |-> "unterminated", grp |-> "dir", at |-> i, val |-> 0] : i \in AllocSlots(l)}
   \cup {[kind |-> "root_name", grp |-> "dir", at |-> 1, val |-> v] : v \in 1..Len(WrongRootNames)}
@@ -49,7 +52,8 @@ SetHdr(l, k, v) == [hdr |-> (k :> v) @@ Hdr(l)] @@ l
 Apply(l, d) ==
   CASE d.kind = "fat_zero_pad"    -> [fat_pad |-> 0] @@ l
     [] d.kind = "fatsec_unmarked" -> [l EXCEPT !.fat[l.fatsecs[d.at] + 1] = d.val]
-    [] d.kind = "minifat_long"    -> [l EXCEPT !.minifat = Append(@, ENDC)]
+    [] d.kind = "minifat_long"    -> [l EXCEPT !.minifat = Append(@, d.val)]
+    [] d.kind = "minifat_zero_pad" -> [minifat_pad |-> 0] @@ l
     [] d.kind = "red_red"         -> [l EXCEPT !.slots[d.at[1]].color = 0, !.slots[d.at[2]].color = 0]
     [] d.kind = "unterminated"    -> [l EXCEPT !.slots[d.at] = [unterminated |-> TRUE] @@ @]
     [] d.kind = "root_name"       -> [l EXCEPT !.slots[1] = [rawname |-> WrongRootNames[d.val]] @@ @]
